@@ -1,0 +1,10 @@
+//go:build !verif
+
+package go9p
+
+// Schedule/trace points used by the out-of-tree verification harness.
+// Without the "verif" build tag they are empty and inlined away.
+
+func verifPoint(point string, conn *Conn, req *SrvReq, nums ...int) {}
+
+func verifCPoint(point string, clnt *Clnt, req *Req, nums ...int) {}
